@@ -159,6 +159,20 @@ def read_counts(path):
     return res, header
 
 
+def duplicate_rows(path):
+    """feature ids (first column) that occur on more than one non-comment line"""
+    seen, dup = set(), []
+    with _open(path) as f:
+        for line in f:
+            if line.startswith("#") or not line.strip():
+                continue
+            k = line.split("\t", 1)[0]
+            if k in seen:
+                dup.append(k)
+            seen.add(k)
+    return dup
+
+
 def read_matrix(path):
     """grouped matrix: returns (groups list, feature -> list of floats)"""
     groups = None
